@@ -375,3 +375,19 @@ def module_api(mod, quick, thorough):
                          getattr(mod, 'probe', None), getattr(mod, 'pre_probe', None))
         return any(label == e['id'] for (_, label, _) in mod.oracle(history, py))
     return run, replay, replay_finding
+
+
+def renumber_state(st):
+    """a frozen state with its generated ObjectIds renumbered by first appearance in the state
+    (for comparing states of two different runs)"""
+    m = {}
+
+    def go(v):
+        if isinstance(v, Fresh):
+            if v.k not in m:
+                m[v.k] = Fresh(len(m))
+            return m[v.k]
+        if isinstance(v, tuple):
+            return tuple(go(x) for x in v)
+        return v
+    return go(st)
